@@ -1,51 +1,65 @@
-//! C11 — bellman_ford, find_negative_cycle (f64 via FloatMeasure), spfa, floyd_warshall,
-//! floyd_warshall_path (i32 / i64 / f64 via BoundedMeasure) on every storage type whose trait
-//! bounds admit the call, with mixed-sign, tie-heavy, integer-valued costs.
+//! C11 — bellman_ford, find_negative_cycle (FloatMeasure: f64 and f32 edge weights), spfa,
+//! floyd_warshall, floyd_warshall_path (BoundedMeasure: all 12 integer types, f32, f64) on every
+//! storage type and every graph adaptor whose trait bounds admit the call, with mixed-sign, tie-heavy,
+//! integer-valued costs; plus the rarely used public surface of the anchored files (`Paths`,
+//! `NegativeCycle`, the `FloatMeasure` / `BoundedMeasure` impls) as laws.
 //!
-//! One concrete graph per case; its edge weights are `f64` (integer-valued); the bounded-measure
-//! algorithms get their cost type through the `edge_cost` closure.  Answers are printed in abstract
-//! node ids:
-//!   bf <s>        => ok a:d:p,a:d:p,…      (d = `i` for +inf, p = `x` for None)   | err | panic
-//!   fnc <s>       => some a,b,c|<bf> / none|<bf>   (<bf> = ok|err: what bellman_ford answers)
-//!   spfa <ty> <s> => ok a:d:p,…            (d = `i` for K::max())                  | err | panic
-//!   fw <ty>       => ok u.v:d,…            | err
-//!   fwp <ty>      => ok u.v:d:p,…          (p = prev[u][v] mapped to abstract ids) | err
+//! One abstract graph per case.  A case consists of one or more SECTIONS; each section starts with a
+//! `graph …` line (the view of one concrete graph or adaptor, in abstract node ids) followed by requests:
+//!   bf <s> / bf32 <s>   => ok a:d:p,a:d:p,…  (d = `i` for +inf, p = `x` for None)   | err | panic
+//!   fnc <s> / fnc32 <s> => some a,b,c|<bf> / none|<bf>   (<bf> = ok|err: what bellman_ford answers)
+//!   spfa <ty> <s>       => ok a:d:p,…        (d = `i` for K::max())                  | err | panic
+//!   fw <ty>             => ok u.v:d,…        | err
+//!   fwp <ty>            => ok u.v:d:p,…      (p = prev[u][v] mapped to abstract ids) | err
+//! and, anywhere in a case, lines that do not depend on the graph:
+//!   consts <ty>         => max=<num> min=<num> zero=<num>          (BoundedMeasure::max/min, Default)
+//!   oadd <ty> <a> <b>   => <num>|inf|-inf <true|false>             (BoundedMeasure::overflowing_add)
+//!   law <name> …        => ok | VIOLATED <why>                     (checked here against the implementation itself)
+//! `<num>` is a decimal integer or `MpE` = M·2^E (floats beyond 2^63).
+//! `graph` lines of adaptors that expose an open finding carry `quirk=d23` (UndirectedAdaptor::edges keeps the
+//! orientation of incoming edges) or `quirk=d6` (MatrixGraph::edges_directed(_, Incoming) swaps the endpoints,
+//! seen through `Reversed`): the driver then classifies a wrong answer as KNOWN only if it is the right answer
+//! for the graph those edge references describe.
+#![allow(clippy::too_many_arguments, clippy::type_complexity)]
 use crate::common::*;
 use crate::graphs::*;
 use crate::rng::Rng;
 use petgraph::adj::List;
+use petgraph::algo::bellman_ford::Paths;
 use petgraph::algo::floyd_warshall::floyd_warshall_path;
-use petgraph::algo::{bellman_ford, find_negative_cycle, floyd_warshall, spfa, BoundedMeasure};
+use petgraph::algo::{bellman_ford, find_negative_cycle, floyd_warshall, spfa, BoundedMeasure, FloatMeasure, NegativeCycle};
 use petgraph::csr::Csr;
+use petgraph::graph::{Frozen, Graph, IndexType};
 use petgraph::graphmap::GraphMap;
 use petgraph::matrix_graph::MatrixGraph;
 use petgraph::visit::{
-    EdgeRef, GraphProp, IntoEdgeReferences, IntoEdges, IntoNodeIdentifiers, NodeCompactIndexable, NodeCount,
-    NodeIndexable, Visitable,
+    EdgeFiltered, EdgeRef, GraphProp, IntoEdgeReferences, IntoEdges, IntoEdgesDirected, IntoNodeIdentifiers,
+    NodeCompactIndexable, NodeCount, NodeFiltered, NodeIndexable, Reversed, UndirectedAdaptor, Visitable,
 };
 use petgraph::{Directed, EdgeType, Undirected};
-use std::hash::Hash;
+use std::fmt::Debug;
+use std::hash::{BuildHasher, BuildHasherDefault, Hash};
 
-/// the three cost types the bounded-measure algorithms are exercised with
-trait Cost: BoundedMeasure + Copy + PartialEq {
-    const NAME: &'static str;
-    fn of(x: f64) -> Self;
-    fn show(self) -> String;
-}
-impl Cost for i32 {
-    const NAME: &'static str = "i32";
-    fn of(x: f64) -> i32 { x as i32 }
-    fn show(self) -> String { if self == i32::MAX { "i".into() } else { self.to_string() } }
-}
-impl Cost for i64 {
-    const NAME: &'static str = "i64";
-    fn of(x: f64) -> i64 { x as i64 }
-    fn show(self) -> String { if self == i64::MAX { "i".into() } else { self.to_string() } }
-}
-impl Cost for f64 {
-    const NAME: &'static str = "f64";
-    fn of(x: f64) -> f64 { x }
-    fn show(self) -> String { show_f(self, f64::MAX) }
+type Fx = BuildHasherDefault<fxhash::FxHasher>;
+type Rs = std::collections::hash_map::RandomState;
+
+// ------------------------------------------------------------------------------------------------
+// numbers in the protocol
+
+/// exact value of a finite float as `M` or `MpE` (= M·2^E); `?…` for anything that is not an integer
+fn num_f64(x: f64) -> String {
+    if x.is_nan() { return "nan".into(); }
+    if x.is_infinite() { return if x > 0.0 { "inf".into() } else { "-inf".into() }; }
+    if x == 0.0 { return "0".into(); }
+    let bits = x.to_bits();
+    let neg = bits >> 63 != 0;
+    let e = ((bits >> 52) & 0x7ff) as i32;
+    let mut m: u64 = if e == 0 { (bits & 0xf_ffff_ffff_ffff) << 1 } else { (bits & 0xf_ffff_ffff_ffff) | 0x10_0000_0000_0000 };
+    let mut ex = e - 1075;
+    while m % 2 == 0 && m != 0 { m /= 2; ex += 1; }
+    if ex < 0 { return format!("?{:e}", x); }
+    let sign = if neg { "-" } else { "" };
+    if ex <= 10 { format!("{}{}", sign, (m as u128) << ex) } else { format!("{}{}p{}", sign, m, ex) }
 }
 
 /// floats are only ever produced from small integers: print them as integers, anything else is
@@ -67,76 +81,397 @@ fn show_pred(p: Option<usize>) -> String {
     }
 }
 
-/// bellman_ford + find_negative_cycle (FloatMeasure: the graph's own f64 weights)
-fn calls_float<G>(ctx: &mut Ctx, g: G, n: usize, abs: &dyn Fn(G::NodeId) -> usize, conc: &dyn Fn(usize) -> G::NodeId, sources: &[usize])
-where
-    G: NodeCount + IntoNodeIdentifiers + IntoEdges<EdgeWeight = f64> + NodeIndexable + Visitable + Copy,
-{
-    for &s in sources {
-        let r = catch(|| match bellman_ford(g, conc(s)) {
-            Ok(p) => {
-                let items: Vec<String> = (0..n)
-                    .map(|a| {
-                        let i = g.to_index(conc(a));
-                        format!("{}:{}:{}", a, show_f(p.distances[i], f64::INFINITY), show_pred(p.predecessors[i].map(abs)))
-                    })
-                    .collect();
-                format!("ok {}", list(items))
+// ------------------------------------------------------------------------------------------------
+// the edge-weight types of the graphs (FloatMeasure: what bellman_ford / find_negative_cycle accept)
+
+trait Wt: FloatMeasure + Copy + PartialOrd + Debug + 'static {
+    /// request-name suffix: `bf`/`fnc` for f64, `bf32`/`fnc32` for f32
+    const SUF: &'static str;
+    /// integers below 2^MANT are represented and added exactly
+    const MANT: u32;
+    fn from_i(x: i64) -> Self;
+    fn to64(self) -> f64;
+}
+impl Wt for f64 {
+    const SUF: &'static str = "";
+    const MANT: u32 = 53;
+    fn from_i(x: i64) -> f64 { x as f64 }
+    fn to64(self) -> f64 { self }
+}
+impl Wt for f32 {
+    const SUF: &'static str = "32";
+    const MANT: u32 = 24;
+    fn from_i(x: i64) -> f32 { x as f32 }
+    fn to64(self) -> f64 { self as f64 }
+}
+
+// ------------------------------------------------------------------------------------------------
+// the cost types of spfa / floyd_warshall (BoundedMeasure: 12 integer types, f32, f64)
+
+trait Cost: BoundedMeasure + Copy + PartialEq + PartialOrd + Debug + 'static {
+    const NAME: &'static str;
+    const UNSIGNED: bool;
+    fn of(x: f64) -> Self;
+    /// a distance: `i` for `max()`
+    fn show(self) -> String;
+    /// exact value as a protocol number
+    fn num(self) -> String;
+    /// (max, min) of the range within which the driver's model theorems apply: `max()`/`min()` of the
+    /// integer types (saturated to i128; the signed twin for the unsigned types), and the range of exactly
+    /// represented integers `±2^53` / `±2^24` for the float types
+    fn limits() -> (i128, i128);
+    /// operand pairs for `overflowing_add` whose exact sum is representable unless it overflows
+    fn oadd_samples(rng: &mut Rng) -> Vec<(Self, Self)>;
+    /// `from_f32` / `from_f64` are the `as` casts
+    fn from_law() -> Option<String>;
+}
+
+const FROM_SAMPLES: [f64; 19] = [
+    0.0, -0.0, 1.0, -1.0, 1.5, -1.5, 127.0, 128.0, -129.0, 255.0, 256.0, 65536.5, 1.0e10, -1.0e10, 1.0e20, 1.0e40,
+    f64::MAX, f64::MIN, f64::INFINITY,
+];
+
+macro_rules! int_cost {
+    ($($t:ident $unsigned:expr),*) => {$(
+        impl Cost for $t {
+            const NAME: &'static str = stringify!($t);
+            const UNSIGNED: bool = $unsigned;
+            fn of(x: f64) -> $t { x as $t }
+            fn show(self) -> String { if self == <$t>::MAX { "i".into() } else { self.to_string() } }
+            fn num(self) -> String { self.to_string() }
+            fn limits() -> (i128, i128) {
+                let mx = i128::try_from(<$t>::MAX).unwrap_or(i128::MAX);
+                if $unsigned { (mx, if mx == i128::MAX { i128::MIN } else { -mx - 1 }) } else { (mx, i128::try_from(<$t>::MIN).unwrap_or(i128::MIN)) }
             }
-            Err(_) => "err".to_string(),
+            fn oadd_samples(rng: &mut Rng) -> Vec<(Self, Self)> {
+                let (mx, mn) = (<$t>::MAX, <$t>::MIN);
+                let small = |rng: &mut Rng| -> $t { let k = rng.range(0, 100) as $t; if !$unsigned && rng.chance(50) { (0 as $t).wrapping_sub(k) } else { k } };
+                let specials = [mx, mx - 1, mx / 2, mx / 2 + 1, mn, mn + 1, mn / 2, 0, 1, (0 as $t).wrapping_sub(1)];
+                let mut v = Vec::new();
+                for _ in 0..3 {
+                    let a = if rng.chance(70) { *rng.pick(&specials) } else { small(rng) };
+                    let b = if rng.chance(70) { *rng.pick(&specials) } else { small(rng) };
+                    v.push((a, b));
+                }
+                v
+            }
+            fn from_law() -> Option<String> {
+                for &x in FROM_SAMPLES.iter().chain([f64::NEG_INFINITY, f64::NAN].iter()) {
+                    if <$t as BoundedMeasure>::from_f64(x) != (x as $t) { return Some(format!("from_f64({:e}) = {:?}", x, <$t as BoundedMeasure>::from_f64(x))); }
+                    if <$t as BoundedMeasure>::from_f32(x as f32) != (x as f32 as $t) { return Some(format!("from_f32({:e}) = {:?}", x as f32, <$t as BoundedMeasure>::from_f32(x as f32))); }
+                }
+                None
+            }
+        }
+    )*};
+}
+int_cost!(i8 false, i16 false, i32 false, i64 false, i128 false, isize false, u8 true, u16 true, u32 true, u64 true, u128 true, usize true);
+
+macro_rules! float_cost {
+    ($($t:ident $mant:expr, $top:expr);*) => {$(
+        impl Cost for $t {
+            const NAME: &'static str = stringify!($t);
+            const UNSIGNED: bool = false;
+            fn of(x: f64) -> $t { x as $t }
+            fn show(self) -> String { show_f(self as f64, <$t>::MAX as f64) }
+            fn num(self) -> String { num_f64(self as f64) }
+            fn limits() -> (i128, i128) { (1i128 << $mant, -(1i128 << $mant)) }
+            fn oadd_samples(rng: &mut Rng) -> Vec<(Self, Self)> {
+                // two grids on which sums are exact: the integers below 2^(p-1), and the multiples k·2^top
+                // with |k| < 2^p (`MAX = (2^p-1)·2^top`): there `a + b` overflows iff |ka + kb| >= 2^p
+                let p: i64 = $mant;
+                let full = (1i64 << p) - 1;
+                let half = (1i64 << (p - 1)) - 1;
+                let scale = (2.0 as $t).powi($top);
+                let mut v = Vec::new();
+                for _ in 0..3 {
+                    if rng.chance(35) {
+                        let ks = [0, 1, -1, half, -half, half - 1, rng.range(-1000, 1000)];
+                        v.push((*rng.pick(&ks) as $t, *rng.pick(&ks) as $t));
+                    } else {
+                        let ks = [full, -full, full - 1, -(full - 1), half + 1, -(half + 1), half, -half, 1, -1, 0, rng.range(-full, full), rng.range(-full, full)];
+                        v.push(((*rng.pick(&ks) as $t) * scale, (*rng.pick(&ks) as $t) * scale));
+                    }
+                }
+                v
+            }
+            fn from_law() -> Option<String> {
+                let same = |a: $t, b: $t| a == b || (a.is_nan() && b.is_nan());
+                for &x in FROM_SAMPLES.iter().chain([f64::NEG_INFINITY, f64::NAN].iter()) {
+                    if !same(<$t as BoundedMeasure>::from_f64(x), x as $t) { return Some(format!("BoundedMeasure::from_f64({:e})", x)); }
+                    if !same(<$t as BoundedMeasure>::from_f32(x as f32), x as f32 as $t) { return Some(format!("BoundedMeasure::from_f32({:e})", x)); }
+                    if !same(<$t as FloatMeasure>::from_f64(x), x as $t) { return Some(format!("FloatMeasure::from_f64({:e})", x)); }
+                    if !same(<$t as FloatMeasure>::from_f32(x as f32), x as f32 as $t) { return Some(format!("FloatMeasure::from_f32({:e})", x)); }
+                }
+                let (z, inf) = (<$t as FloatMeasure>::zero(), <$t as FloatMeasure>::infinite());
+                if z != 0.0 || z.is_sign_negative() { return Some("FloatMeasure::zero() is not +0".into()); }
+                if !(inf.is_infinite() && inf > 0.0) { return Some("FloatMeasure::infinite() is not +inf".into()); }
+                None
+            }
+        }
+    )*};
+}
+float_cost!(f64 53, 971; f32 24, 104);
+
+const EXTRA_NARROW: [&str; 5] = ["i8", "u8", "i16", "u16", "f32"];
+const EXTRA_WIDE: [&str; 6] = ["i128", "isize", "u32", "u64", "u128", "usize"];
+
+/// run `$f::<…, K>(args)` for the cost type named `$name`
+macro_rules! by_cost {
+    ($name:expr, $f:ident, [$($g:ty),*], ($($args:expr),*)) => {
+        match $name {
+            "i8" => $f::<$($g,)* i8>($($args),*), "i16" => $f::<$($g,)* i16>($($args),*), "i32" => $f::<$($g,)* i32>($($args),*),
+            "i64" => $f::<$($g,)* i64>($($args),*), "i128" => $f::<$($g,)* i128>($($args),*), "isize" => $f::<$($g,)* isize>($($args),*),
+            "u8" => $f::<$($g,)* u8>($($args),*), "u16" => $f::<$($g,)* u16>($($args),*), "u32" => $f::<$($g,)* u32>($($args),*),
+            "u64" => $f::<$($g,)* u64>($($args),*), "u128" => $f::<$($g,)* u128>($($args),*), "usize" => $f::<$($g,)* usize>($($args),*),
+            "f32" => $f::<$($g,)* f32>($($args),*), _ => $f::<$($g,)* f64>($($args),*),
+        }
+    };
+}
+
+// ------------------------------------------------------------------------------------------------
+// laws of the helper types (checked against the implementation itself)
+
+fn law_line(ctx: &mut Ctx, name: &str, r: Option<Option<String>>) {
+    let ans = match r {
+        None => "VIOLATED panic".to_string(),
+        Some(None) => "ok".to_string(),
+        Some(Some(why)) => format!("VIOLATED {}", why.replace(" => ", " -> ")),
+    };
+    ctx.line(&format!("law {}", name), &ans);
+}
+
+/// `Paths`: `Clone` (incl. `clone_from` onto an arbitrary prior value) and `Debug`
+fn paths_laws<N: Copy + PartialEq + Debug, K: Copy + PartialEq + Debug>(p: &Paths<N, K>, prior: Paths<N, K>) -> Option<String> {
+    let same = |a: &Paths<N, K>, b: &Paths<N, K>| a.distances == b.distances && a.predecessors == b.predecessors;
+    let c = p.clone();
+    if !same(&c, p) {
+        return Some("clone() differs from the original".into());
+    }
+    let mut q = prior;
+    q.clone_from(p);
+    if !same(&q, p) {
+        return Some("clone_from() differs from clone()".into());
+    }
+    let (d1, d2) = (format!("{:?}", p), format!("{:#?}", p));
+    if d1.is_empty() || d2.is_empty() {
+        return Some("empty Debug output".into());
+    }
+    None
+}
+
+/// `NegativeCycle`: `Clone`, `PartialEq`, `Debug`
+fn negcycle_laws(e: &NegativeCycle) -> Option<String> {
+    let c = e.clone();
+    if c != *e || !(c == *e) {
+        return Some("clone() != original".into());
+    }
+    let mut f = NegativeCycle(());
+    f.clone_from(e);
+    if f != *e {
+        return Some("clone_from() != original".into());
+    }
+    if format!("{:?}", e).is_empty() || format!("{:#?}", e).is_empty() {
+        return Some("empty Debug output".into());
+    }
+    None
+}
+
+/// `consts`, `oadd` (judged by the driver against `Meas`) and the conversion law for one cost type
+fn measure_lines<K: Cost>(ctx: &mut Ctx, rng: &mut Rng) {
+    let r = catch(|| format!("max={} min={} zero={}", <K as BoundedMeasure>::max().num(), <K as BoundedMeasure>::min().num(), K::default().num()));
+    ctx.line(&format!("consts {}", K::NAME), &r.unwrap_or("panic".into()));
+    for (a, b) in K::oadd_samples(rng) {
+        let r = catch(|| {
+            let (s, o) = <K as BoundedMeasure>::overflowing_add(a, b);
+            format!("{} {}", s.num(), o)
+        });
+        ctx.line(&format!("oadd {} {} {}", K::NAME, a.num(), b.num()), &r.unwrap_or("panic".into()));
+    }
+    law_line(ctx, &format!("measure-from {}", K::NAME), catch(K::from_law));
+}
+
+// ------------------------------------------------------------------------------------------------
+// the calls
+
+/// what one section runs, and on which abstract nodes
+struct Sec<'a> {
+    /// the abstract graph this section's graph describes
+    ag: &'a AG,
+    /// abstract ids of its nodes
+    ids: &'a [usize],
+    sources: &'a [usize],
+    /// candidate extra cost types, in order of preference
+    pool: &'a [&'static str],
+    /// emit the laws of `Paths` / `NegativeCycle` on the values obtained here
+    laws: bool,
+    /// 0: all of floyd_warshall, 1: one cost type only, 2: none (large graphs)
+    big: u8,
+}
+
+/// the quantities of the driver's width checks (Model/C11Checks.lean): |V|, node_bound, M, Wm
+struct Dims {
+    nv: i128,
+    nb: i128,
+    m: i128,
+    wm: i128,
+    nonneg: bool,
+}
+
+impl Dims {
+    fn within<K: Cost>(&self, x: i128) -> bool {
+        let (mx, mn) = K::limits();
+        x < mx && mn <= -x && (!K::UNSIGNED || self.nonneg)
+    }
+    fn fit_spfa<K: Cost>(&self) -> bool { self.within::<K>((self.nv * self.nb * self.m + self.nv) * self.wm) }
+    fn fit_fw<K: Cost>(&self) -> bool { self.within::<K>(2 * self.nv * self.wm) }
+}
+fn fit_spfa_k<K: Cost>(d: &Dims) -> bool { d.fit_spfa::<K>() }
+fn fit_fw_k<K: Cost>(d: &Dims) -> bool { d.fit_fw::<K>() }
+
+fn dims_edges<G>(sec: &Sec, g: G) -> Dims
+where
+    G: IntoNodeIdentifiers + IntoEdges + NodeIndexable + Copy,
+{
+    let m = g.node_identifiers().map(|n| g.edges(n).count()).max().unwrap_or(0);
+    Dims { nv: sec.ids.len() as i128, nb: g.node_bound() as i128, m: m as i128, wm: max_abs_cost(sec.ag) as i128, nonneg: sec.ag.edges.iter().all(|e| e.2 >= 0) }
+}
+
+/// up to two extra cost types of the pool that pass `fit`
+fn pick_extras(sec: &Sec, d: &Dims, spfa_not_fw: bool) -> Vec<&'static str> {
+    let mut v = Vec::new();
+    for &t in sec.pool {
+        let ok = if spfa_not_fw { by_cost!(t, fit_spfa_k, [], (d)) } else { by_cost!(t, fit_fw_k, [], (d)) };
+        if ok {
+            v.push(t);
+            if v.len() == 3 { break; }
+        }
+    }
+    v
+}
+
+/// bellman_ford + find_negative_cycle (FloatMeasure: the graph's own weights)
+fn calls_float<G, W: Wt>(ctx: &mut Ctx, sec: &Sec, g: G, abs: &dyn Fn(G::NodeId) -> usize, conc: &dyn Fn(usize) -> G::NodeId)
+where
+    G: NodeCount + IntoNodeIdentifiers + IntoEdges<EdgeWeight = W> + NodeIndexable + Visitable + Copy,
+    G::NodeId: Debug,
+{
+    // the driver's `fitBfB` / `fitBf32B`: every label and candidate sum stays an exactly represented integer
+    let d = dims_edges(sec, g);
+    if ((d.nv - 1).max(0) * (d.nv * d.m) + 1) * d.wm >= (1i128 << W::MANT) {
+        return;
+    }
+    let mut law_done = !sec.laws;
+    for &s in sec.sources {
+        let mut kept: Option<Result<Paths<G::NodeId, W>, NegativeCycle>> = None;
+        let r = catch(|| {
+            let res = bellman_ford(g, conc(s));
+            let txt = match &res {
+                Ok(p) => {
+                    let items: Vec<String> = sec.ids.iter().map(|&a| {
+                        let i = g.to_index(conc(a));
+                        format!("{}:{}:{}", a, show_f(p.distances[i].to64(), f64::INFINITY), show_pred(p.predecessors[i].map(abs)))
+                    }).collect();
+                    format!("ok {}", list(items))
+                }
+                Err(_) => "err".to_string(),
+            };
+            kept = Some(res);
+            txt
         });
         let bf = r.unwrap_or("panic".into());
-        ctx.line(&format!("bf {}", s), &bf);
+        ctx.line(&format!("bf{} {}", W::SUF, s), &bf);
         let bfword = bf.split(' ').next().unwrap_or("panic").to_string();
         let r = catch(|| match find_negative_cycle(g, conc(s)) {
             Some(seq) => format!("some {}", list(seq.into_iter().map(abs))),
             None => "none".to_string(),
         });
-        ctx.line(&format!("fnc {}", s), &format!("{}|{}", r.unwrap_or("panic".into()), bfword));
+        ctx.line(&format!("fnc{} {}", W::SUF, s), &format!("{}|{}", r.unwrap_or("panic".into()), bfword));
+        if !law_done {
+            match &kept {
+                Some(Ok(p)) => {
+                    let prior = Paths { distances: vec![W::from_i(7); 3], predecessors: vec![Some(conc(s))] };
+                    law_line(ctx, &format!("paths bf{} {}", W::SUF, s), catch(|| paths_laws(p, prior)));
+                    law_done = true;
+                }
+                Some(Err(e)) => law_line(ctx, &format!("negcycle bf{} {}", W::SUF, s), catch(|| negcycle_laws(e))),
+                None => {}
+            }
+        }
     }
 }
 
 /// spfa with cost type K
-fn call_spfa<G, K: Cost>(ctx: &mut Ctx, g: G, n: usize, abs: &dyn Fn(G::NodeId) -> usize, conc: &dyn Fn(usize) -> G::NodeId, s: usize)
+fn call_spfa<G, W: Wt, K: Cost>(ctx: &mut Ctx, sec: &Sec, g: G, abs: &dyn Fn(G::NodeId) -> usize, conc: &dyn Fn(usize) -> G::NodeId, s: usize, laws: bool)
 where
-    G: IntoNodeIdentifiers + IntoEdges<EdgeWeight = f64> + NodeIndexable + Copy,
+    G: IntoNodeIdentifiers + IntoEdges<EdgeWeight = W> + NodeIndexable + Copy,
+    G::NodeId: Debug,
 {
-    let r = catch(|| match spfa(g, conc(s), |e| K::of(*e.weight())) {
-        Ok(p) => {
-            let items: Vec<String> = (0..n)
-                .map(|a| {
+    let mut kept: Option<Result<Paths<G::NodeId, K>, NegativeCycle>> = None;
+    let r = catch(|| {
+        let res = spfa(g, conc(s), |e| K::of((*e.weight()).to64()));
+        let txt = match &res {
+            Ok(p) => {
+                let items: Vec<String> = sec.ids.iter().map(|&a| {
                     let i = g.to_index(conc(a));
                     format!("{}:{}:{}", a, p.distances[i].show(), show_pred(p.predecessors[i].map(abs)))
-                })
-                .collect();
-            format!("ok {}", list(items))
-        }
-        Err(_) => "err".to_string(),
+                }).collect();
+                format!("ok {}", list(items))
+            }
+            Err(_) => "err".to_string(),
+        };
+        kept = Some(res);
+        txt
     });
     ctx.line(&format!("spfa {} {}", K::NAME, s), &r.unwrap_or("panic".into()));
-}
-
-fn calls_spfa<G>(ctx: &mut Ctx, g: G, n: usize, abs: &dyn Fn(G::NodeId) -> usize, conc: &dyn Fn(usize) -> G::NodeId, sources: &[usize])
-where
-    G: IntoNodeIdentifiers + IntoEdges<EdgeWeight = f64> + NodeIndexable + Copy,
-{
-    for &s in sources {
-        call_spfa::<G, i32>(ctx, g, n, abs, conc, s);
-        call_spfa::<G, i64>(ctx, g, n, abs, conc, s);
-        call_spfa::<G, f64>(ctx, g, n, abs, conc, s);
+    if laws {
+        match &kept {
+            Some(Ok(p)) => {
+                let prior = Paths { distances: vec![K::default(); 2], predecessors: vec![None; 5] };
+                law_line(ctx, &format!("paths spfa {} {}", K::NAME, s), catch(|| paths_laws(p, prior)));
+            }
+            Some(Err(e)) => law_line(ctx, &format!("negcycle spfa {} {}", K::NAME, s), catch(|| negcycle_laws(e))),
+            None => {}
+        }
     }
 }
 
-fn call_fw<G, K: Cost>(ctx: &mut Ctx, g: G, n: usize, abs: &dyn Fn(G::NodeId) -> usize, conc: &dyn Fn(usize) -> G::NodeId)
+/// level A (the storage types' own sections): i32, i64, f64 from every source
+fn calls_spfa_a<G, W: Wt>(ctx: &mut Ctx, sec: &Sec, g: G, abs: &dyn Fn(G::NodeId) -> usize, conc: &dyn Fn(usize) -> G::NodeId)
 where
-    G: NodeCompactIndexable + IntoEdgeReferences<EdgeWeight = f64> + IntoNodeIdentifiers + GraphProp + Copy,
+    G: IntoNodeIdentifiers + IntoEdges<EdgeWeight = W> + NodeIndexable + Copy,
+    G::NodeId: Debug,
+{
+    for (k, &s) in sec.sources.iter().enumerate() {
+        call_spfa::<G, W, i32>(ctx, sec, g, abs, conc, s, false);
+        call_spfa::<G, W, i64>(ctx, sec, g, abs, conc, s, sec.laws && k == 0);
+        call_spfa::<G, W, f64>(ctx, sec, g, abs, conc, s, false);
+    }
+}
+
+/// level B (non-default instantiations, f32 weights, adaptors): i32 and f64
+fn calls_spfa_b<G, W: Wt>(ctx: &mut Ctx, sec: &Sec, g: G, abs: &dyn Fn(G::NodeId) -> usize, conc: &dyn Fn(usize) -> G::NodeId)
+where
+    G: IntoNodeIdentifiers + IntoEdges<EdgeWeight = W> + NodeIndexable + Copy,
+    G::NodeId: Debug,
+{
+    for &s in sec.sources {
+        call_spfa::<G, W, i32>(ctx, sec, g, abs, conc, s, false);
+        call_spfa::<G, W, f64>(ctx, sec, g, abs, conc, s, false);
+    }
+}
+
+fn call_fw<G, W: Wt, K: Cost>(ctx: &mut Ctx, sec: &Sec, g: G, abs: &dyn Fn(G::NodeId) -> usize, conc: &dyn Fn(usize) -> G::NodeId)
+where
+    G: NodeCompactIndexable + IntoEdgeReferences<EdgeWeight = W> + IntoNodeIdentifiers + GraphProp + Copy,
     G::NodeId: Eq + Hash,
 {
-    let r = catch(|| match floyd_warshall(g, |e| K::of(*e.weight())) {
+    let n = sec.ids.len();
+    let r = catch(|| match floyd_warshall(g, |e| K::of((*e.weight()).to64())) {
         Ok(m) => {
             let mut items = Vec::new();
-            for u in 0..n {
-                for v in 0..n {
+            for &u in sec.ids {
+                for &v in sec.ids {
                     items.push(match m.get(&(conc(u), conc(v))) {
                         Some(d) => format!("{}.{}:{}", u, v, d.show()),
                         None => format!("{}.{}:missing", u, v),
@@ -151,11 +486,11 @@ where
         Err(_) => "err".to_string(),
     });
     ctx.line(&format!("fw {}", K::NAME), &r.unwrap_or("panic".into()));
-    let r = catch(|| match floyd_warshall_path(g, |e| K::of(*e.weight())) {
+    let r = catch(|| match floyd_warshall_path(g, |e| K::of((*e.weight()).to64())) {
         Ok((m, prev)) => {
             let mut items = Vec::new();
-            for u in 0..n {
-                for v in 0..n {
+            for &u in sec.ids {
+                for &v in sec.ids {
                     let (iu, iv) = (g.to_index(conc(u)), g.to_index(conc(v)));
                     let p = prev[iu][iv].map(|k| abs(g.from_index(k)));
                     items.push(match m.get(&(conc(u), conc(v))) {
@@ -174,25 +509,187 @@ where
     ctx.line(&format!("fwp {}", K::NAME), &r.unwrap_or("panic".into()));
 }
 
-fn calls_fw<G>(ctx: &mut Ctx, g: G, n: usize, abs: &dyn Fn(G::NodeId) -> usize, conc: &dyn Fn(usize) -> G::NodeId)
+fn calls_fw_a<G, W: Wt>(ctx: &mut Ctx, sec: &Sec, g: G, abs: &dyn Fn(G::NodeId) -> usize, conc: &dyn Fn(usize) -> G::NodeId)
 where
-    G: NodeCompactIndexable + IntoEdgeReferences<EdgeWeight = f64> + IntoNodeIdentifiers + GraphProp + Copy,
+    G: NodeCompactIndexable + IntoEdgeReferences<EdgeWeight = W> + IntoNodeIdentifiers + GraphProp + Copy,
     G::NodeId: Eq + Hash,
 {
-    call_fw::<G, i32>(ctx, g, n, abs, conc);
-    call_fw::<G, i64>(ctx, g, n, abs, conc);
-    call_fw::<G, f64>(ctx, g, n, abs, conc);
+    if sec.big >= 2 {
+        return;
+    }
+    if sec.big == 1 {
+        match (sec.ag.edges.len() + sec.ids.len()) % 3 {
+            0 => call_fw::<G, W, i32>(ctx, sec, g, abs, conc),
+            1 => call_fw::<G, W, i64>(ctx, sec, g, abs, conc),
+            _ => call_fw::<G, W, f64>(ctx, sec, g, abs, conc),
+        }
+        return;
+    }
+    call_fw::<G, W, i32>(ctx, sec, g, abs, conc);
+    call_fw::<G, W, i64>(ctx, sec, g, abs, conc);
+    call_fw::<G, W, f64>(ctx, sec, g, abs, conc);
+}
+
+fn calls_fw_b<G, W: Wt>(ctx: &mut Ctx, sec: &Sec, g: G, abs: &dyn Fn(G::NodeId) -> usize, conc: &dyn Fn(usize) -> G::NodeId)
+where
+    G: NodeCompactIndexable + IntoEdgeReferences<EdgeWeight = W> + IntoNodeIdentifiers + GraphProp + Copy,
+    G::NodeId: Eq + Hash,
+{
+    if sec.big >= 2 {
+        return;
+    }
+    call_fw::<G, W, i64>(ctx, sec, g, abs, conc);
+}
+
+// the capability profiles of a graph type (level A / level B)
+
+macro_rules! profiles {
+    ($full:ident, $nofw:ident, $spfa:ident, $fw:ident) => {
+        /// everything: Graph, GraphMap, Csr, adj::List and the adaptors that keep all of their traits
+        fn $full<G, W: Wt>(ctx: &mut Ctx, sec: &Sec, g: G, abs: &dyn Fn(G::NodeId) -> usize, conc: &dyn Fn(usize) -> G::NodeId)
+        where
+            G: NodeCount + IntoNodeIdentifiers + IntoEdges<EdgeWeight = W> + NodeIndexable + Visitable + NodeCompactIndexable + GraphProp + Copy,
+            G::NodeId: Debug + Eq + Hash,
+        {
+            calls_float(ctx, sec, g, abs, conc);
+            $spfa(ctx, sec, g, abs, conc);
+            $fw(ctx, sec, g, abs, conc);
+        }
+
+        /// not NodeCompactIndexable (StableGraph, MatrixGraph): no floyd_warshall
+        fn $nofw<G, W: Wt>(ctx: &mut Ctx, sec: &Sec, g: G, abs: &dyn Fn(G::NodeId) -> usize, conc: &dyn Fn(usize) -> G::NodeId)
+        where
+            G: NodeCount + IntoNodeIdentifiers + IntoEdges<EdgeWeight = W> + NodeIndexable + Visitable + Copy,
+            G::NodeId: Debug,
+        {
+            calls_float(ctx, sec, g, abs, conc);
+            $spfa(ctx, sec, g, abs, conc);
+        }
+    };
+}
+profiles!(run_full_a, run_nofw_a, calls_spfa_a, calls_fw_a);
+profiles!(run_full_b, run_nofw_b, calls_spfa_b, calls_fw_b);
+
+/// NodeFiltered: spfa only (no NodeCount, not NodeCompactIndexable)
+fn run_spfa_only<G, W: Wt>(ctx: &mut Ctx, sec: &Sec, g: G, abs: &dyn Fn(G::NodeId) -> usize, conc: &dyn Fn(usize) -> G::NodeId)
+where
+    G: IntoNodeIdentifiers + IntoEdges<EdgeWeight = W> + NodeIndexable + Copy,
+    G::NodeId: Debug,
+{
+    calls_spfa_b(ctx, sec, g, abs, conc);
+}
+
+/// level A or B, chosen per instantiation at compile time (keeps the number of monomorphic copies down)
+trait Level {
+    fn full<G, W: Wt>(ctx: &mut Ctx, sec: &Sec, g: G, abs: &dyn Fn(G::NodeId) -> usize, conc: &dyn Fn(usize) -> G::NodeId)
+    where
+        G: NodeCount + IntoNodeIdentifiers + IntoEdges<EdgeWeight = W> + NodeIndexable + Visitable + NodeCompactIndexable + GraphProp + Copy,
+        G::NodeId: Debug + Eq + Hash;
+    fn nofw<G, W: Wt>(ctx: &mut Ctx, sec: &Sec, g: G, abs: &dyn Fn(G::NodeId) -> usize, conc: &dyn Fn(usize) -> G::NodeId)
+    where
+        G: NodeCount + IntoNodeIdentifiers + IntoEdges<EdgeWeight = W> + NodeIndexable + Visitable + Copy,
+        G::NodeId: Debug;
+}
+struct LA;
+struct LB;
+macro_rules! level_impl {
+    ($l:ident, $full:ident, $nofw:ident) => {
+        impl Level for $l {
+            fn full<G, W: Wt>(ctx: &mut Ctx, sec: &Sec, g: G, abs: &dyn Fn(G::NodeId) -> usize, conc: &dyn Fn(usize) -> G::NodeId)
+            where
+                G: NodeCount + IntoNodeIdentifiers + IntoEdges<EdgeWeight = W> + NodeIndexable + Visitable + NodeCompactIndexable + GraphProp + Copy,
+                G::NodeId: Debug + Eq + Hash,
+            {
+                $full(ctx, sec, g, abs, conc)
+            }
+            fn nofw<G, W: Wt>(ctx: &mut Ctx, sec: &Sec, g: G, abs: &dyn Fn(G::NodeId) -> usize, conc: &dyn Fn(usize) -> G::NodeId)
+            where
+                G: NodeCount + IntoNodeIdentifiers + IntoEdges<EdgeWeight = W> + NodeIndexable + Visitable + Copy,
+                G::NodeId: Debug,
+            {
+                $nofw(ctx, sec, g, abs, conc)
+            }
+        }
+    };
+}
+level_impl!(LA, run_full_a, run_nofw_a);
+level_impl!(LB, run_full_b, run_nofw_b);
+
+// ------------------------------------------------------------------------------------------------
+// views
+
+/// abstract edge id of an edge reference by endpoints + weight among the ids not yet used; the reported
+/// orientation is tried first, then the opposite one (undirected graphs; the D6 orientation of MatrixGraph)
+fn eid_any(ag: &AG, a: usize, b: usize, w: i64, used: &mut Vec<usize>) -> usize {
+    // passes 2, 3: an edge listed a second time in the same row (`UndirectedAdaptor` chains the in- and the
+    // out-list, so a self-loop comes twice)
+    for pass in 0..4 {
+        for (k, &(x, y, ww)) in ag.edges.iter().enumerate() {
+            if ww == w && ((pass % 2 == 0 && x == a && y == b) || (pass % 2 == 1 && x == b && y == a)) && (pass >= 2 || !used.contains(&k)) {
+                used.push(k);
+                return k;
+            }
+        }
+    }
+    usize::MAX
+}
+
+/// the `graph` line of a section whose graph offers `IntoEdges` (out-lists in its iteration order)
+fn emit_view<G, W: Wt>(ctx: &mut Ctx, ag: &AG, g: G, abs: &dyn Fn(G::NodeId) -> usize, what: &str, quirk: &str)
+where
+    G: IntoNodeIdentifiers + IntoEdges<EdgeWeight = W> + NodeIndexable + GraphProp + Copy,
+{
+    let mut line = view_line_out_only(ag, g, abs, &|er, used| eid_any(ag, abs(er.source()), abs(er.target()), er.weight().to64() as i64, used));
+    line.push_str(&format!(" what={}", what));
+    if !quirk.is_empty() {
+        line.push_str(&format!(" quirk={}", quirk));
+    }
+    ctx.line(&line, "ok");
+}
+
+/// the `graph` line of a section whose graph offers only `IntoEdgeReferences` (adaptors over Csr / adj::List):
+/// out-lists derived from `edge_references()` in its order
+fn emit_view_refs<G, W: Wt>(ctx: &mut Ctx, ag: &AG, g: G, abs: &dyn Fn(G::NodeId) -> usize, what: &str)
+where
+    G: NodeCompactIndexable + IntoEdgeReferences<EdgeWeight = W> + IntoNodeIdentifiers + GraphProp + Copy,
+{
+    let nodes: Vec<G::NodeId> = g.node_identifiers().collect();
+    let mut out: Vec<Vec<String>> = vec![Vec::new(); ag.n];
+    let mut used = Vec::new();
+    for er in g.edge_references() {
+        let (s, t) = (abs(er.source()), abs(er.target()));
+        let k = eid_any(ag, s, t, er.weight().to64() as i64, &mut used);
+        out[s].push(format!("{}/{}", t, k));
+        if !ag.directed && s != t {
+            out[t].push(format!("{}/{}", s, k));
+        }
+    }
+    let edges = if ag.edges.is_empty() { "-".to_string() } else { ag.edges.iter().enumerate().map(|(k, &(a, b, w))| format!("{}:{}:{}:{}", k, a, b, w)).collect::<Vec<_>>().join(";") };
+    let outs: Vec<String> = nodes.iter().map(|&x| { let a = abs(x); format!("{}:{}", a, if out[a].is_empty() { "-".into() } else { out[a].join(",") }) }).collect();
+    let line = format!(
+        "graph d={} nb={} nodes={} ix={} edges={} out={} in=- hasin=0 what={}",
+        if ag.directed { 1 } else { 0 },
+        g.node_bound(),
+        list(nodes.iter().map(|&x| abs(x))),
+        list(nodes.iter().map(|&x| format!("{}:{}", abs(x), g.to_index(x)))),
+        edges,
+        if outs.is_empty() { "-".into() } else { outs.join(";") },
+        what,
+    );
+    ctx.line(&line, "ok");
 }
 
 // ------------------------------------------------------------------------------------------------
-// f64-weighted twins of the encoders of graphs.rs that have no `map` (same construction histories)
+// encoders with weight type W (twins of those of graphs.rs: same construction histories)
 
-fn enc_matrix_f<Ty: EdgeType>(rng: &mut Rng, ag: &AG, node_order: &[usize], edge_order: &[usize]) -> MatrixGraph<usize, f64, std::collections::hash_map::RandomState, Ty> {
-    let mut g = MatrixGraph::<usize, f64, std::collections::hash_map::RandomState, Ty>::with_capacity(rng.below(5));
+type WConv<'a, W> = &'a dyn Fn(i64) -> W;
+
+fn enc_matrix_w<Ty: EdgeType, W: Wt, S: BuildHasher + Default, Ix: IndexType>(rng: &mut Rng, ag: &AG, node_order: &[usize], edge_order: &[usize], wc: WConv<W>, cap: Option<usize>) -> MatrixGraph<usize, W, S, Ty, Option<W>, Ix> {
+    let mut g = MatrixGraph::<usize, W, S, Ty, Option<W>, Ix>::with_capacity(cap.unwrap_or_else(|| rng.below(5)));
     let mut cidx = vec![Default::default(); ag.n];
     let mut dummies = Vec::new();
     for &a in node_order {
-        if rng.chance(35) {
+        if ag.n <= 12 && rng.chance(35) {
             dummies.push(g.add_node(usize::MAX));
         }
         cidx[a] = g.add_node(a);
@@ -202,159 +699,318 @@ fn enc_matrix_f<Ty: EdgeType>(rng: &mut Rng, ag: &AG, node_order: &[usize], edge
     }
     for &k in edge_order {
         let (a, b, w) = ag.edges[k];
-        g.add_edge(cidx[a], cidx[b], w as f64);
+        g.add_edge(cidx[a], cidx[b], wc(w));
     }
     g
 }
 
-fn enc_map_f<Ty: EdgeType>(ag: &AG, node_order: &[usize], edge_order: &[usize]) -> GraphMap<usize, f64, Ty> {
-    let mut g = GraphMap::<usize, f64, Ty>::new();
+fn enc_map_w<Ty: EdgeType, W: Wt, S: BuildHasher + Default>(ag: &AG, node_order: &[usize], edge_order: &[usize], wc: WConv<W>) -> GraphMap<usize, W, Ty, S> {
+    let mut g = GraphMap::<usize, W, Ty, S>::default();
     for &a in node_order {
         g.add_node(a);
     }
     for &k in edge_order {
         let (a, b, w) = ag.edges[k];
-        g.add_edge(a, b, w as f64);
+        g.add_edge(a, b, wc(w));
     }
     g
 }
 
-fn enc_csr_f<Ty: EdgeType>(ag: &AG, node_order: &[usize], edge_order: &[usize]) -> Csr<usize, f64, Ty> {
-    let mut g = Csr::<usize, f64, Ty>::new();
-    let mut cidx = vec![0u32; ag.n];
+fn enc_csr_w<Ty: EdgeType, W: Wt, Ix: IndexType>(ag: &AG, node_order: &[usize], edge_order: &[usize], wc: WConv<W>) -> Csr<usize, W, Ty, Ix> {
+    let mut g = Csr::<usize, W, Ty, Ix>::new();
+    let mut cidx: Vec<Ix> = vec![Ix::new(0); ag.n];
     for &a in node_order {
         cidx[a] = g.add_node(a);
     }
     for &k in edge_order {
         let (a, b, w) = ag.edges[k];
-        g.add_edge(cidx[a], cidx[b], w as f64);
+        g.add_edge(cidx[a], cidx[b], wc(w));
     }
     g
 }
 
-fn enc_list_f(ag: &AG, node_order: &[usize], edge_order: &[usize]) -> List<f64> {
-    let mut g = List::<f64>::new();
-    let mut cidx = vec![0u32; ag.n];
+fn enc_list_w<W: Wt, Ix: IndexType>(ag: &AG, node_order: &[usize], edge_order: &[usize], wc: WConv<W>) -> List<W, Ix> {
+    let mut g = List::<W, Ix>::new();
+    let mut cidx: Vec<Ix> = vec![Ix::new(0); ag.n];
     for &a in node_order {
         cidx[a] = g.add_node();
     }
     for &k in edge_order {
         let (a, b, w) = ag.edges[k];
-        g.add_edge(cidx[a], cidx[b], w as f64);
+        g.add_edge(cidx[a], cidx[b], wc(w));
     }
     g
 }
 
-macro_rules! with_ty {
-    ($directed:expr, $f:ident, $($args:expr),*) => {
-        if $directed { $f::<Directed>($($args),*) } else { $f::<Undirected>($($args),*) }
-    };
-}
-
-fn case_ty<Ty: EdgeType>(ctx: &mut Ctx, rng: &mut Rng, ag: &AG, sources: &[usize], hint: &Option<Vec<usize>>) {
-    let n = ag.n;
-    let mut node_order = random_perm(rng, n);
-    let mut edge_order = random_perm(rng, ag.edges.len());
-    if let Some(ord) = hint {
-        // monotone insertion (either direction) of nodes and edges
-        node_order = ord.clone();
-        edge_order = (0..ag.edges.len()).collect();
-        if rng.chance(50) { node_order.reverse(); }
-        if rng.chance(50) { edge_order.reverse(); }
-    }
-    let mut inv = vec![0usize; n];
-    for (i, &a) in node_order.iter().enumerate() {
-        inv[a] = i;
-    }
-    let simple = ag.is_simple();
-    let mut choices = vec![0, 0, 1, 2, 2];
-    if simple {
-        choices.extend([3, 4, 4, 5, 5]);
-        if ag.directed {
-            choices.extend([6, 6]);
-        }
-    }
-    match *rng.pick(&choices) {
-        0 => {
-            let e = enc_graph::<Ty, u32>(ag, &node_order, &edge_order);
-            let g0 = e.g.map(|_, a| *a, |_, w| *w as f64);
-            let g = &g0;
-            let abs = |x: petgraph::graph::NodeIndex<u32>| g[x];
-            let conc = |a: usize| petgraph::graph::NodeIndex::<u32>::new(inv[a]);
-            ctx.line(&view_line(ag, g, &abs, &|er, _| e.eid[EdgeRef::id(&er).index()]), "ok");
-            calls_float(ctx, g, n, &abs, &conc, sources);
-            calls_spfa(ctx, g, n, &abs, &conc, sources);
-            calls_fw(ctx, g, n, &abs, &conc);
-        }
+/// Graph with one of four construction histories: plain; built reversed and `reverse()`d; a clone whose
+/// original is cleared afterwards; junk edges added and `clear_edges()`ed before the real ones
+fn enc_graph_hist<Ty: EdgeType, Ix: IndexType>(rng: &mut Rng, ag: &AG, node_order: &[usize], edge_order: &[usize]) -> (EncGraph<Ty, Ix>, &'static str) {
+    match rng.weighted(&[70, 10, 10, 10]) {
         1 => {
-            let e = enc_graph::<Ty, u8>(ag, &node_order, &edge_order);
-            let g0 = e.g.map(|_, a| *a, |_, w| *w as f64);
-            let g = &g0;
-            let abs = |x: petgraph::graph::NodeIndex<u8>| g[x];
-            let conc = |a: usize| petgraph::graph::NodeIndex::<u8>::new(inv[a]);
-            ctx.line(&view_line(ag, g, &abs, &|er, _| e.eid[EdgeRef::id(&er).index()]), "ok");
-            calls_float(ctx, g, n, &abs, &conc, sources);
-            calls_spfa(ctx, g, n, &abs, &conc, sources);
-            calls_fw(ctx, g, n, &abs, &conc);
+            let rag = AG { directed: ag.directed, n: ag.n, edges: ag.edges.iter().map(|&(a, b, w)| (b, a, w)).collect() };
+            let mut e = enc_graph::<Ty, Ix>(&rag, node_order, edge_order);
+            e.g.reverse();
+            (e, "reverse")
         }
         2 => {
-            let e = enc_stable::<Ty, u32>(rng, ag, &node_order, &edge_order, true);
-            let g0 = e.g.map(|_, a| *a, |_, w| *w as f64);
-            let g = &g0;
-            let cidx: Vec<_> = { let mut v = vec![petgraph::graph::NodeIndex::<u32>::new(0); n]; for x in g.node_indices() { v[g[x]] = x; } v };
-            let abs = |x: petgraph::graph::NodeIndex<u32>| g[x];
-            let conc = |a: usize| cidx[a];
-            ctx.line(&view_line(ag, g, &abs, &|er, _| e.eid[EdgeRef::id(&er).index()]), "ok");
-            calls_float(ctx, g, n, &abs, &conc, sources);
-            calls_spfa(ctx, g, n, &abs, &conc, sources);
+            let mut e = enc_graph::<Ty, Ix>(ag, node_order, edge_order);
+            let c = e.g.clone();
+            e.g.clear();
+            (EncGraph { g: c, eid: e.eid }, "clone")
         }
         3 => {
-            let g0 = enc_matrix_f::<Ty>(rng, ag, &node_order, &edge_order);
-            let g = &g0;
-            let cidx: Vec<_> = { let mut v = vec![petgraph::matrix_graph::NodeIndex::new(0); n]; for x in g.node_identifiers() { v[*g.node_weight(x)] = x; } v };
-            let abs = |x: petgraph::matrix_graph::NodeIndex| *g.node_weight(x);
-            let conc = |a: usize| cidx[a];
-            ctx.line(&view_line_out_only(ag, g, &abs, &|er, used| { let (s, t) = (abs(EdgeRef::source(&er)), abs(EdgeRef::target(&er))); eid_by_lookup(ag, s, t, *EdgeRef::weight(&er) as i64, used) }), "ok");
-            calls_float(ctx, g, n, &abs, &conc, sources);
-            calls_spfa(ctx, g, n, &abs, &conc, sources);
+            let mut g = Graph::<usize, i64, Ty, Ix>::with_capacity(0, 0);
+            let mut cidx = vec![Default::default(); ag.n];
+            for &a in node_order {
+                cidx[a] = g.add_node(a);
+            }
+            for _ in 0..rng.below(4) {
+                if ag.n > 0 {
+                    let (x, y) = (rng.below(ag.n), rng.below(ag.n));
+                    g.add_edge(cidx[x], cidx[y], -999);
+                }
+            }
+            g.clear_edges();
+            let mut eid = Vec::new();
+            for &k in edge_order {
+                let (a, b, w) = ag.edges[k];
+                g.add_edge(cidx[a], cidx[b], w);
+                eid.push(k);
+            }
+            (EncGraph { g, eid }, "clear_edges")
         }
-        4 => {
-            let g0 = enc_map_f::<Ty>(ag, &node_order, &edge_order);
-            let g = &g0;
-            let abs = |x: usize| x;
-            let conc = |a: usize| a;
-            ctx.line(&view_line(ag, g, &abs, &|er, used| eid_by_lookup(ag, EdgeRef::source(&er), EdgeRef::target(&er), *EdgeRef::weight(&er) as i64, used)), "ok");
-            calls_float(ctx, g, n, &abs, &conc, sources);
-            calls_spfa(ctx, g, n, &abs, &conc, sources);
-            calls_fw(ctx, g, n, &abs, &conc);
-        }
-        5 => {
-            let g0 = enc_csr_f::<Ty>(ag, &node_order, &edge_order);
-            let g = &g0;
-            let abs = |x: u32| g[x];
-            let conc = |a: usize| inv[a] as u32;
-            ctx.line(&view_line_out_only(ag, g, &abs, &|er, used| eid_by_lookup(ag, abs(EdgeRef::source(&er)), abs(EdgeRef::target(&er)), *EdgeRef::weight(&er) as i64, used)), "ok");
-            calls_float(ctx, g, n, &abs, &conc, sources);
-            calls_spfa(ctx, g, n, &abs, &conc, sources);
-            calls_fw(ctx, g, n, &abs, &conc);
-        }
-        _ => {
-            let g0 = enc_list_f(ag, &node_order, &edge_order);
-            let g = &g0;
-            let abs = |x: u32| node_order[x as usize];
-            let conc = |a: usize| inv[a] as u32;
-            ctx.line(&view_line_out_only(ag, g, &abs, &|er, used| eid_by_lookup(ag, abs(EdgeRef::source(&er)), abs(EdgeRef::target(&er)), *EdgeRef::weight(&er) as i64, used)), "ok");
-            calls_float(ctx, g, n, &abs, &conc, sources);
-            calls_spfa(ctx, g, n, &abs, &conc, sources);
-            calls_fw(ctx, g, n, &abs, &conc);
-        }
+        _ => (enc_graph::<Ty, Ix>(ag, node_order, edge_order), "plain"),
     }
 }
 
+// ------------------------------------------------------------------------------------------------
+// adaptor sections: the same algorithms on `Reversed`, `&EdgeFiltered`, `&NodeFiltered`,
+// `UndirectedAdaptor`, `&Frozen` over the base graph `g` of the case (whose view was the first section)
+
+fn ekey(ag: &AG, a: usize, b: usize, w: i64) -> (usize, usize, i64) {
+    if ag.directed || a <= b { (a, b, w) } else { (b, a, w) }
+}
+
+/// a random subset of the edge classes (endpoints + cost) and the abstract graph it leaves
+fn edge_filter_ag(rng: &mut Rng, ag: &AG) -> (AG, std::collections::HashSet<(usize, usize, i64)>) {
+    let pct = *rng.pick(&[50u32, 70, 70, 90]);
+    let mut kept = std::collections::HashSet::new();
+    let mut dropped = std::collections::HashSet::new();
+    let mut fag = AG { directed: ag.directed, n: ag.n, edges: Vec::new() };
+    for &(a, b, w) in &ag.edges {
+        let k = ekey(ag, a, b, w);
+        if !kept.contains(&k) && !dropped.contains(&k) {
+            if rng.chance(pct) { kept.insert(k); } else { dropped.insert(k); }
+        }
+        if kept.contains(&k) {
+            fag.edges.push((a, b, w));
+        }
+    }
+    (fag, kept)
+}
+
+fn node_filter_ag(rng: &mut Rng, sec: &Sec) -> (AG, Vec<bool>, Vec<usize>, Vec<usize>) {
+    let ag = sec.ag;
+    let mut keepn: Vec<bool> = (0..ag.n).map(|_| rng.chance(75)).collect();
+    if let Some(&s) = sec.sources.first() {
+        keepn[s] = true;
+    }
+    let fag = AG { directed: ag.directed, n: ag.n, edges: ag.edges.iter().cloned().filter(|&(a, b, _)| keepn[a] && keepn[b]).collect() };
+    let ids: Vec<usize> = sec.ids.iter().cloned().filter(|&a| keepn[a]).collect();
+    let sources: Vec<usize> = sec.sources.iter().cloned().filter(|&a| keepn[a]).collect();
+    (fag, keepn, ids, sources)
+}
+
+/// `&NodeFiltered<G, F>` (any base)
+fn adapt_nfilt<G, W: Wt>(ctx: &mut Ctx, rng: &mut Rng, sec: &Sec, g: G, abs: &dyn Fn(G::NodeId) -> usize, conc: &dyn Fn(usize) -> G::NodeId, base: &str)
+where
+    G: IntoNodeIdentifiers + IntoEdges<EdgeWeight = W> + NodeIndexable + GraphProp + Copy,
+    G::NodeId: Debug,
+{
+    let (fag, keepn, ids, sources) = node_filter_ag(rng, sec);
+    let f = NodeFiltered::from_fn(g, |x: G::NodeId| keepn[abs(x)]);
+    let fg = &f;
+    let sec2 = Sec { ag: &fag, ids: &ids, sources: &sources, laws: false, ..*sec };
+    emit_view(ctx, &fag, fg, abs, &format!("nodefiltered-{}", base), "");
+    run_spfa_only(ctx, &sec2, fg, abs, conc);
+}
+
+macro_rules! adapt_common {
+    ($name:ident, $run:ident, [$($bound:tt)*]) => {
+        /// `&EdgeFiltered<G, F>`, `&NodeFiltered<G, F>` or `&Frozen<G>` over the base `g`
+        fn $name<G, W: Wt>(ctx: &mut Ctx, rng: &mut Rng, sec: &Sec, g: G, abs: &dyn Fn(G::NodeId) -> usize, conc: &dyn Fn(usize) -> G::NodeId, base: &str)
+        where
+            G: $($bound)*,
+            G::NodeId: Debug + Eq + Hash,
+        {
+            match rng.weighted(&[40, 30, 30]) {
+                0 => {
+                    let (fag, kept) = edge_filter_ag(rng, sec.ag);
+                    let f = EdgeFiltered::from_fn(g, |er: G::EdgeRef| kept.contains(&ekey(sec.ag, abs(er.source()), abs(er.target()), er.weight().to64() as i64)));
+                    let fg = &f;
+                    let sec2 = Sec { ag: &fag, laws: false, ..*sec };
+                    emit_view(ctx, &fag, fg, abs, &format!("edgefiltered-{}", base), "");
+                    $run(ctx, &sec2, fg, abs, conc);
+                }
+                1 => adapt_nfilt(ctx, rng, sec, g, abs, conc, base),
+                _ => {
+                    let mut gr = g;
+                    let fz = Frozen::new(&mut gr);
+                    let fg = &fz;
+                    let sec2 = Sec { laws: false, ..*sec };
+                    emit_view(ctx, sec.ag, fg, abs, &format!("frozen-{}", base), "");
+                    $run(ctx, &sec2, fg, abs, conc);
+                }
+            }
+        }
+    };
+}
+adapt_common!(adapt_common_full, run_full_b, [NodeCount + IntoNodeIdentifiers + IntoEdges<EdgeWeight = W> + NodeIndexable + Visitable + NodeCompactIndexable + GraphProp + Copy]);
+adapt_common!(adapt_common_nofw, run_nofw_b, [NodeCount + IntoNodeIdentifiers + IntoEdges<EdgeWeight = W> + NodeIndexable + Visitable + GraphProp + Copy]);
+
+fn reversed_ag(ag: &AG) -> AG {
+    AG { directed: ag.directed, n: ag.n, edges: ag.edges.iter().map(|&(a, b, w)| (b, a, w)).collect() }
+}
+
+macro_rules! adapt_dir {
+    ($name:ident, $run:ident, [$($bound:tt)*]) => {
+        /// `Reversed<G>` or (directed base) `UndirectedAdaptor<G>` over a base with `IntoEdgesDirected`;
+        /// `qrev` / `qund` = the open finding the adaptor exposes on this base, if any
+        fn $name<G, W: Wt>(ctx: &mut Ctx, rng: &mut Rng, sec: &Sec, g: G, abs: &dyn Fn(G::NodeId) -> usize, conc: &dyn Fn(usize) -> G::NodeId, base: &str, qrev: &str, qund: &str)
+        where
+            G: $($bound)*,
+            G::NodeId: Debug + Eq + Hash,
+        {
+            if sec.ag.directed && rng.chance(50) {
+                let uag = AG { directed: false, n: sec.ag.n, edges: sec.ag.edges.clone() };
+                let sec2 = Sec { ag: &uag, laws: false, ..*sec };
+                let ug = UndirectedAdaptor(g);
+                emit_view(ctx, &uag, ug, abs, &format!("undirected-{}", base), qund);
+                $run(ctx, &sec2, ug, abs, conc);
+            } else {
+                let rag = reversed_ag(sec.ag);
+                let sec2 = Sec { ag: &rag, laws: false, ..*sec };
+                let rg = Reversed(g);
+                emit_view(ctx, &rag, rg, abs, &format!("reversed-{}", base), qrev);
+                $run(ctx, &sec2, rg, abs, conc);
+            }
+        }
+    };
+}
+adapt_dir!(adapt_dir_full, run_full_b, [NodeCount + IntoNodeIdentifiers + IntoEdgesDirected<EdgeWeight = W> + NodeIndexable + Visitable + NodeCompactIndexable + GraphProp + Copy]);
+adapt_dir!(adapt_dir_nofw, run_nofw_b, [NodeCount + IntoNodeIdentifiers + IntoEdgesDirected<EdgeWeight = W> + NodeIndexable + Visitable + GraphProp + Copy]);
+
+/// `Reversed<G>` / `UndirectedAdaptor<G>` over a directed base without `IntoEdgesDirected` (Csr, adj::List):
+/// only `IntoEdgeReferences` survives, i.e. floyd_warshall(_path)
+fn adapt_refs<G, W: Wt>(ctx: &mut Ctx, rng: &mut Rng, sec: &Sec, g: G, abs: &dyn Fn(G::NodeId) -> usize, conc: &dyn Fn(usize) -> G::NodeId, base: &str)
+where
+    G: NodeCompactIndexable + IntoEdgeReferences<EdgeWeight = W> + IntoNodeIdentifiers + GraphProp + Copy,
+    G::NodeId: Debug + Eq + Hash,
+{
+    if rng.chance(50) {
+        let uag = AG { directed: false, n: sec.ag.n, edges: sec.ag.edges.clone() };
+        let sec2 = Sec { ag: &uag, laws: false, ..*sec };
+        let ug = UndirectedAdaptor(g);
+        emit_view_refs(ctx, &uag, ug, abs, &format!("undirected-{}", base));
+        calls_fw_b(ctx, &sec2, ug, abs, conc);
+    } else {
+        let rag = reversed_ag(sec.ag);
+        let sec2 = Sec { ag: &rag, laws: false, ..*sec };
+        let rg = Reversed(g);
+        emit_view_refs(ctx, &rag, rg, abs, &format!("reversed-{}", base));
+        calls_fw_b(ctx, &sec2, rg, abs, conc);
+    }
+}
+
+// ------------------------------------------------------------------------------------------------
+// unusual-but-legal float costs: +inf, max(), NaN on EXTRA edges of a plain Graph.  An edge of cost
+// +inf (FloatMeasure) or max() (BoundedMeasure: the algorithms' own "no path") can be on no walk of finite
+// cost, so all answers must be those of the graph without it (which the driver has judged in this case).
+// With NaN costs only the part of the answer no NaN edge can influence is determined.
+
+struct Res {
+    bf: Option<Vec<f64>>,
+    fnc: bool,
+    sp: Option<Vec<f64>>,
+    fw: Option<Vec<f64>>,
+    fwi: Option<Vec<i32>>,
+}
+
+fn results<Ty: EdgeType>(g: &Graph<usize, f64, Ty, u32>, s: usize) -> Res {
+    let n = g.node_count();
+    let src = petgraph::graph::NodeIndex::<u32>::new(s);
+    Res {
+        bf: bellman_ford(g, src).ok().map(|p| p.distances),
+        fnc: find_negative_cycle(g, src).is_some(),
+        sp: spfa(g, src, |e| *e.weight()).ok().map(|p| p.distances),
+        fw: floyd_warshall(g, |e| *e.weight()).ok().map(|m| { let mut v = Vec::new(); for a in 0..n { for b in 0..n { v.push(*m.get(&(petgraph::graph::NodeIndex::new(a), petgraph::graph::NodeIndex::new(b))).unwrap_or(&f64::NAN)); } } v }),
+        fwi: floyd_warshall(g, |e| *e.weight() as i32).ok().map(|m| { let mut v = Vec::new(); for a in 0..n { for b in 0..n { v.push(*m.get(&(petgraph::graph::NodeIndex::new(a), petgraph::graph::NodeIndex::new(b))).unwrap_or(&i32::MIN)); } } v }),
+    }
+}
+
+fn special_cost_laws<Ty: EdgeType>(ctx: &mut Ctx, rng: &mut Rng, ag: &AG, s: usize) {
+    let n = ag.n;
+    let build = |extra: &[(usize, usize, f64)]| -> Graph<usize, f64, Ty, u32> {
+        let mut g = Graph::<usize, f64, Ty, u32>::with_capacity(0, 0);
+        for a in 0..n { g.add_node(a); }
+        for &(a, b, w) in &ag.edges { g.add_edge(petgraph::graph::NodeIndex::new(a), petgraph::graph::NodeIndex::new(b), w as f64); }
+        for &(a, b, w) in extra { g.add_edge(petgraph::graph::NodeIndex::new(a), petgraph::graph::NodeIndex::new(b), w); }
+        g
+    };
+    let k = 1 + rng.below(3);
+    let ends: Vec<(usize, usize)> = (0..k).map(|_| (rng.below(n), rng.below(n))).collect();
+    let base = match catch(|| results(&build(&[]), s)) { Some(r) => r, None => { law_line(ctx, &format!("special-costs base {}", s), None); return; } };
+    let same = |a: &Option<Vec<f64>>, b: &Option<Vec<f64>>| match (a, b) { (None, None) => true, (Some(x), Some(y)) => x == y, _ => false };
+    for (name, w) in [("inf", f64::INFINITY), ("max", f64::MAX)] {
+        let extra: Vec<(usize, usize, f64)> = ends.iter().map(|&(a, b)| (a, b, w)).collect();
+        let r = catch(|| {
+            let v = results(&build(&extra), s);
+            if name == "inf" && !same(&v.bf, &base.bf) { return Some(format!("bellman_ford changes when edges {:?} of cost +inf are added", ends)); }
+            if name == "inf" && v.fnc != base.fnc { return Some(format!("find_negative_cycle changes when edges {:?} of cost +inf are added", ends)); }
+            if !same(&v.sp, &base.sp) { return Some(format!("spfa::<f64> changes when edges {:?} of cost {} are added", ends, name)); }
+            if !same(&v.fw, &base.fw) { return Some(format!("floyd_warshall::<f64> changes when edges {:?} of cost {} are added", ends, name)); }
+            if v.fwi != base.fwi { return Some(format!("floyd_warshall::<i32> changes when edges {:?} of cost i32::MAX are added", ends)); }
+            None
+        });
+        law_line(ctx, &format!("special-costs {} {}", name, s), r);
+    }
+    // NaN: X = everything a walk through a NaN edge can end in
+    let extra: Vec<(usize, usize, f64)> = ends.iter().map(|&(a, b)| (a, b, f64::NAN)).collect();
+    let mut inx = vec![false; n];
+    let mut stack: Vec<usize> = Vec::new();
+    for &(a, b) in &ends { stack.push(b); if !ag.directed { stack.push(a); } }
+    while let Some(x) = stack.pop() {
+        if inx[x] { continue; }
+        inx[x] = true;
+        for &(a, b, _) in ag.edges.iter() { if a == x { stack.push(b); } if !ag.directed && b == x { stack.push(a); } }
+        for &(a, b) in &ends { if a == x { stack.push(b); } if !ag.directed && b == x { stack.push(a); } }
+    }
+    let r = catch(|| {
+        let v = results(&build(&extra), s);
+        let single = |what: &str, b: &Option<Vec<f64>>, v: &Option<Vec<f64>>| -> Option<String> {
+            match (b, v) {
+                (None, Some(_)) => Some(format!("{}: Ok although a negative cycle without NaN edges is reachable", what)),
+                (Some(x), Some(y)) => (0..n).find(|&a| !inx[a] && x[a] != y[a]).map(|a| format!("{}: distance of node {} (not behind a NaN edge) changes", what, a)),
+                _ => None,
+            }
+        };
+        if let Some(w) = single("bellman_ford", &base.bf, &v.bf) { return Some(w); }
+        if let Some(w) = single("spfa::<f64>", &base.sp, &v.sp) { return Some(w); }
+        if base.fnc && !v.fnc { return Some("find_negative_cycle: None although a negative cycle without NaN edges is reachable".into()); }
+        match (&base.fw, &v.fw) {
+            (None, Some(_)) => return Some("floyd_warshall: Ok although the graph has a negative cycle without NaN edges".into()),
+            (Some(x), Some(y)) => { for a in 0..n { for b in 0..n { if !inx[b] && x[a * n + b] != y[a * n + b] { return Some(format!("floyd_warshall: entry ({},{}) (not behind a NaN edge) changes", a, b)); } } } }
+            _ => {}
+        }
+        None
+    });
+    law_line(ctx, &format!("special-costs nan {}", s), r);
+}
 /// A bound, computable before the encoding is chosen, on the `L = |V|*node_bound*M + |V|` the driver
 /// computes from the view (Model/C11Checks.lean `spfaLenC`): `node_bound <= 4n+8` in every encoding
-/// (enc_stable inserts at most 3 dummies per node and one more at the end, enc_matrix_f at most one per
-/// node), and no out-list is longer than `2m` (an undirected self-loop may be listed twice).
+/// (enc_stable inserts at most 3 dummies per node and one more at the end, enc_matrix_w at most one per
+/// node; adaptors keep the node_bound of their base), and no out-list is longer than `2m` (an undirected self-loop may be listed twice; `UndirectedAdaptor`
+/// chains the in- and the out-list).
 fn len_bound(ag: &AG) -> i64 {
     let (n, m) = (ag.n as i64, ag.edges.len() as i64);
     (n * (4 * n + 8) * (2 * m).max(1) + n).max(1)
@@ -387,7 +1043,7 @@ fn keep_in_range(ag: &mut AG) -> bool {
 }
 
 /// structure-directed weighted graphs: see props/C11.json `rule`
-fn gen_case(rng: &mut Rng, thorough: bool) -> (AG, String, Option<Vec<usize>>) {
+fn gen_regular(rng: &mut Rng, thorough: bool) -> (AG, String, Option<Vec<usize>>) {
     let mut hint: Option<Vec<usize>> = None;
     let directed = rng.chance(70);
     let max_n = if thorough { 11 } else { 8 };
@@ -529,19 +1185,375 @@ fn gen_case(rng: &mut Rng, thorough: bool) -> (AG, String, Option<Vec<usize>>) {
     (ag, tags, hint)
 }
 
+
+/// one generated case: the abstract graph, its tags, an insertion-order hint, a forced encoding, and how much
+/// of floyd_warshall a graph of this size gets (`Sec::big`)
+struct GenCase {
+    ag: AG,
+    tags: String,
+    hint: Option<Vec<usize>>,
+    force: Option<usize>,
+    big: u8,
+}
+
+/// corner families (8.5 % of the cases) in front of the regular ones: the empty graph, a single node with
+/// loops, graphs that fill the `u8` index type (255 nodes, or one below; 253..255 edges), rows of 31/32/33
+/// entries (the linear / binary search cut-off of Csr), node counts around a power of two (MatrixGraph grows
+/// its capacity in powers of two)
+fn gen_case(rng: &mut Rng, thorough: bool) -> GenCase {
+    let directed = rng.chance(70);
+    match rng.weighted(&[915, 10, 25, 7, 18, 25]) {
+        1 => GenCase { ag: AG { directed, n: 0, edges: Vec::new() }, tags: "empty".into(), hint: None, force: None, big: 0 },
+        2 => {
+            let mut edges = Vec::new();
+            for _ in 0..rng.below(4) {
+                edges.push((0, 0, rng.range(-2, 2)));
+            }
+            GenCase { ag: AG { directed, n: 1, edges }, tags: "single".into(), hint: None, force: None, big: 0 }
+        }
+        3 => {
+            let n = 254 + rng.below(2);
+            let target = 253 + rng.below(3);
+            let mut edges: Vec<(usize, usize, i64)> = Vec::new();
+            for b in 1..n {
+                if rng.chance(97) && edges.len() < target {
+                    let a = rng.below(b);
+                    if directed && rng.chance(40) { edges.push((b, a, rng.range(0, 2))) } else { edges.push((a, b, rng.range(0, 2))) }
+                }
+            }
+            while edges.len() < target {
+                edges.push((rng.below(n), rng.below(n), rng.range(0, 2)));
+            }
+            let mut tags = "cap-u8".to_string();
+            if directed {
+                let pi: Vec<i64> = (0..n).map(|_| rng.range(-2, 2)).collect();
+                for e in edges.iter_mut() {
+                    e.2 += pi[e.0] - pi[e.1];
+                }
+                if rng.chance(10) {
+                    let k = rng.below(edges.len());
+                    edges[k].2 = -9;
+                    tags.push_str("+neg");
+                }
+            } else if rng.chance(10) {
+                let k = rng.below(edges.len());
+                edges[k].2 = -1;
+                tags.push_str("+neg");
+            }
+            GenCase { ag: AG { directed, n, edges }, tags, hint: None, force: Some(if rng.chance(60) { 1 } else { 9 }), big: 2 }
+        }
+        4 => {
+            let d = 31 + rng.below(3);
+            let n = d + 1 + rng.below(3);
+            let p = random_perm(rng, n);
+            let mut edges: Vec<(usize, usize, i64)> = (1..=d).map(|i| (p[0], p[i], rng.range(-1, 3))).collect();
+            for _ in 0..rng.below(7) {
+                let (a, b) = (rng.below(n), rng.below(n));
+                if a != b && !edges.iter().any(|&(x, y, _)| (x == a && y == b) || (!directed && x == b && y == a)) {
+                    edges.push((a, b, if directed { rng.range(-1, 3) } else { rng.range(0, 3) }));
+                }
+            }
+            if !directed && rng.chance(70) {
+                for e in edges.iter_mut() { e.2 = e.2.abs(); }
+            }
+            rng.shuffle(&mut edges);
+            GenCase { ag: AG { directed, n, edges }, tags: format!("star{}", d), hint: None, force: if rng.chance(60) { Some(5) } else { None }, big: 1 }
+        }
+        5 => {
+            let large = thorough && rng.chance(30);
+            let n = if large { 31 + rng.below(3) } else { 15 + rng.below(3) };
+            let mut edges = Vec::new();
+            let nonneg = !directed && rng.chance(70);
+            for a in 0..n {
+                for b in 0..n {
+                    if (directed || a <= b) && rng.chance(if large { 4 } else { 8 }) && (a != b || rng.chance(30)) {
+                        edges.push((a, b, if nonneg { rng.range(0, 3) } else { rng.range(-1, 3) }));
+                    }
+                }
+            }
+            GenCase { ag: AG { directed, n, edges }, tags: format!("pow2-{}", n), hint: None, force: if rng.chance(70) { Some(if rng.chance(50) { 3 } else { 10 }) } else { None }, big: if large { 2 } else { 1 } }
+        }
+        _ => {
+            let (ag, tags, hint) = gen_regular(rng, thorough);
+            GenCase { ag, tags, hint, force: None, big: 0 }
+        }
+    }
+}
+
+macro_rules! with_ty {
+    ($directed:expr, $f:ident, $($args:expr),*) => {
+        if $directed { $f::<Directed>($($args),*) } else { $f::<Undirected>($($args),*) }
+    };
+}
+
+/// orders of insertion and the inverse of the node order
+struct Orders {
+    node_order: Vec<usize>,
+    edge_order: Vec<usize>,
+    inv: Vec<usize>,
+}
+
+fn orders(rng: &mut Rng, ag: &AG, hint: &Option<Vec<usize>>) -> Orders {
+    let n = ag.n;
+    let mut node_order = random_perm(rng, n);
+    let mut edge_order = random_perm(rng, ag.edges.len());
+    if let Some(ord) = hint {
+        // monotone insertion (either direction) of nodes and edges
+        node_order = ord.clone();
+        edge_order = (0..ag.edges.len()).collect();
+        if rng.chance(50) { node_order.reverse(); }
+        if rng.chance(50) { edge_order.reverse(); }
+    }
+    let mut inv = vec![0usize; n];
+    for (i, &a) in node_order.iter().enumerate() {
+        inv[a] = i;
+    }
+    Orders { node_order, edge_order, inv }
+}
+
+fn sec_graph<Ty: EdgeType, Ix: IndexType, W: Wt, L: Level>(ctx: &mut Ctx, rng: &mut Rng, sec: &Sec, o: &Orders, wc: WConv<W>, ixname: &str, adapt: bool) {
+    let ag = sec.ag;
+    let (e, hist) = enc_graph_hist::<Ty, Ix>(rng, ag, &o.node_order, &o.edge_order);
+    let g0 = e.g.map(|_, a| *a, |_, w| wc(*w));
+    let g = &g0;
+    let abs = |x: petgraph::graph::NodeIndex<Ix>| g[x];
+    let conc = |a: usize| petgraph::graph::NodeIndex::<Ix>::new(o.inv[a]);
+    let line = view_line(ag, g, &abs, &|er, _| e.eid[EdgeRef::id(&er).index()]);
+    ctx.line(&format!("{} what=graph-{}-{}", line, ixname, hist), "ok");
+    L::full(ctx, sec, g, &abs, &conc);
+    if adapt {
+        if rng.chance(50) { adapt_common_full(ctx, rng, sec, g, &abs, &conc, "graph") } else { adapt_dir_full(ctx, rng, sec, g, &abs, &conc, "graph", "", "d23") }
+    }
+}
+
+fn sec_stable<Ty: EdgeType, Ix: IndexType, W: Wt, L: Level>(ctx: &mut Ctx, rng: &mut Rng, sec: &Sec, o: &Orders, wc: WConv<W>, ixname: &str, adapt: bool) {
+    let ag = sec.ag;
+    let n = ag.n;
+    let e = enc_stable::<Ty, Ix>(rng, ag, &o.node_order, &o.edge_order, n <= 40);
+    let g0 = e.g.map(|_, a| *a, |_, w| wc(*w));
+    let g = &g0;
+    let cidx: Vec<_> = { let mut v = vec![petgraph::graph::NodeIndex::<Ix>::new(0); n]; for x in g.node_indices() { v[g[x]] = x; } v };
+    let abs = |x: petgraph::graph::NodeIndex<Ix>| g[x];
+    let conc = |a: usize| cidx[a];
+    let line = view_line(ag, g, &abs, &|er, _| e.eid[EdgeRef::id(&er).index()]);
+    ctx.line(&format!("{} what=stable-{}", line, ixname), "ok");
+    L::nofw(ctx, sec, g, &abs, &conc);
+    if adapt {
+        if rng.chance(50) { adapt_common_nofw(ctx, rng, sec, g, &abs, &conc, "stable") } else { adapt_dir_nofw(ctx, rng, sec, g, &abs, &conc, "stable", "", "d23") }
+    }
+}
+
+fn sec_matrix<Ty: EdgeType, S: BuildHasher + Default, Ix: IndexType, W: Wt, L: Level>(ctx: &mut Ctx, rng: &mut Rng, sec: &Sec, o: &Orders, wc: WConv<W>, name: &str, adapt: bool) {
+    let ag = sec.ag;
+    let n = ag.n;
+    // capacities at and around the powers of two the matrix grows by
+    let cap = if n > 12 && rng.chance(60) { Some(*rng.pick(&[n - 1, n, n + 1, 16, 32])) } else { None };
+    let g0 = enc_matrix_w::<Ty, W, S, Ix>(rng, ag, &o.node_order, &o.edge_order, wc, cap);
+    let g = &g0;
+    let cidx: Vec<_> = { let mut v = vec![petgraph::matrix_graph::NodeIndex::<Ix>::new(0); n]; for x in g.node_identifiers() { v[*g.node_weight(x)] = x; } v };
+    let abs = |x: petgraph::matrix_graph::NodeIndex<Ix>| *g.node_weight(x);
+    let conc = |a: usize| cidx[a];
+    emit_view(ctx, ag, g, &abs, name, "");
+    L::nofw(ctx, sec, g, &abs, &conc);
+    if adapt {
+        adapt_common_nofw(ctx, rng, sec, g, &abs, &conc, "matrix");
+    }
+}
+
+/// directed MatrixGraph also has `IntoEdgesDirected`: `Reversed` (exposes D6) and `UndirectedAdaptor`
+/// (correct here: the D6 orientation of the incoming edges is the one the adaptor needs)
+fn case_matrix_directed(ctx: &mut Ctx, rng: &mut Rng, sec: &Sec, o: &Orders) {
+    let ag = sec.ag;
+    let n = ag.n;
+    let wc = |w: i64| w as f64;
+    let g0 = enc_matrix_w::<Directed, f64, Rs, u16>(rng, ag, &o.node_order, &o.edge_order, &wc, None);
+    let g = &g0;
+    let cidx: Vec<_> = { let mut v = vec![petgraph::matrix_graph::NodeIndex::<u16>::new(0); n]; for x in g.node_identifiers() { v[*g.node_weight(x)] = x; } v };
+    let abs = |x: petgraph::matrix_graph::NodeIndex<u16>| *g.node_weight(x);
+    let conc = |a: usize| cidx[a];
+    emit_view(ctx, ag, g, &abs, "matrix-directed", "");
+    run_nofw_a(ctx, sec, g, &abs, &conc);
+    adapt_dir_nofw(ctx, rng, sec, g, &abs, &conc, "matrix", "d6", "dup");
+}
+
+fn sec_map<Ty: EdgeType, S: BuildHasher + Default, W: Wt, L: Level>(ctx: &mut Ctx, rng: &mut Rng, sec: &Sec, o: &Orders, wc: WConv<W>, name: &str, adapt: bool) {
+    let ag = sec.ag;
+    let g0 = enc_map_w::<Ty, W, S>(ag, &o.node_order, &o.edge_order, wc);
+    let g = &g0;
+    let abs = |x: usize| x;
+    let conc = |a: usize| a;
+    let line = view_line(ag, g, &abs, &|er, used| eid_any(ag, EdgeRef::source(&er), EdgeRef::target(&er), EdgeRef::weight(&er).to64() as i64, used));
+    ctx.line(&format!("{} what={}", line, name), "ok");
+    L::full(ctx, sec, g, &abs, &conc);
+    if adapt {
+        if rng.chance(50) { adapt_common_full(ctx, rng, sec, g, &abs, &conc, "map") } else { adapt_dir_full(ctx, rng, sec, g, &abs, &conc, "map", "", "d23") }
+    }
+}
+
+fn sec_csr<Ty: EdgeType, Ix: IndexType, W: Wt, L: Level>(ctx: &mut Ctx, rng: &mut Rng, sec: &Sec, o: &Orders, wc: WConv<W>, name: &str, adapt: bool) {
+    let ag = sec.ag;
+    let g0 = enc_csr_w::<Ty, W, Ix>(ag, &o.node_order, &o.edge_order, wc);
+    let g = &g0;
+    let abs = |x: Ix| g[x];
+    let conc = |a: usize| Ix::new(o.inv[a]);
+    emit_view(ctx, ag, g, &abs, name, "");
+    L::full(ctx, sec, g, &abs, &conc);
+    if adapt {
+        if ag.directed && rng.chance(40) { adapt_refs(ctx, rng, sec, g, &abs, &conc, "csr") } else { adapt_common_full(ctx, rng, sec, g, &abs, &conc, "csr") }
+    }
+}
+
+fn sec_list<Ix: IndexType, W: Wt, L: Level>(ctx: &mut Ctx, rng: &mut Rng, sec: &Sec, o: &Orders, wc: WConv<W>, name: &str, adapt: bool) {
+    let ag = sec.ag;
+    let g0 = enc_list_w::<W, Ix>(ag, &o.node_order, &o.edge_order, wc);
+    let g = &g0;
+    let abs = |x: Ix| o.node_order[x.index()];
+    let conc = |a: usize| Ix::new(o.inv[a]);
+    emit_view(ctx, ag, g, &abs, name, "");
+    L::full(ctx, sec, g, &abs, &conc);
+    if adapt {
+        if rng.chance(40) { adapt_refs(ctx, rng, sec, g, &abs, &conc, "list") } else { adapt_common_full(ctx, rng, sec, g, &abs, &conc, "list") }
+    }
+}
+
+fn case_ty<Ty: EdgeType>(ctx: &mut Ctx, rng: &mut Rng, sec: &Sec, o: &Orders, force: Option<usize>, negzero: bool) {
+    let ag = sec.ag;
+    let wcf = move |w: i64| if negzero && w == 0 { -0.0f64 } else { w as f64 };
+    let wc: WConv<f64> = &wcf;
+    let mut choices = vec![0, 0, 1, 2, 2, 7, 8, 9];
+    if ag.is_simple() {
+        choices.extend([3, 4, 4, 5, 5, 10, 11, 12]);
+        if ag.directed {
+            choices.extend([6, 6, 13]);
+        }
+    }
+    let enc = force.unwrap_or_else(|| *rng.pick(&choices));
+    // an adaptor section follows the storage type's own section in 40 % of the cases (default instantiations)
+    let adapt = sec.big < 2 && rng.chance(40);
+    match enc {
+        0 => sec_graph::<Ty, u32, f64, LA>(ctx, rng, sec, o, wc, "u32", adapt),
+        1 => sec_graph::<Ty, u8, f64, LB>(ctx, rng, sec, o, wc, "u8", false),
+        7 => sec_graph::<Ty, u16, f64, LB>(ctx, rng, sec, o, wc, "u16", false),
+        8 => sec_graph::<Ty, usize, f64, LB>(ctx, rng, sec, o, wc, "usize", false),
+        2 => sec_stable::<Ty, u32, f64, LA>(ctx, rng, sec, o, wc, "u32", adapt),
+        9 => sec_stable::<Ty, u8, f64, LB>(ctx, rng, sec, o, wc, "u8", false),
+        3 => sec_matrix::<Ty, Rs, u16, f64, LA>(ctx, rng, sec, o, wc, "matrix", adapt),
+        10 => sec_matrix::<Ty, Fx, u8, f64, LB>(ctx, rng, sec, o, wc, "matrix-fx-u8", false),
+        4 => sec_map::<Ty, Rs, f64, LA>(ctx, rng, sec, o, wc, "map", adapt),
+        11 => sec_map::<Ty, Fx, f64, LB>(ctx, rng, sec, o, wc, "map-fx", false),
+        5 => sec_csr::<Ty, u32, f64, LA>(ctx, rng, sec, o, wc, "csr", adapt),
+        12 => sec_csr::<Ty, u16, f64, LB>(ctx, rng, sec, o, wc, "csr-u16", false),
+        6 => sec_list::<u32, f64, LA>(ctx, rng, sec, o, wc, "list", adapt),
+        _ => sec_list::<u8, f64, LB>(ctx, rng, sec, o, wc, "list-u8", false),
+    }
+}
+
+/// the whole case with `f32` edge weights (bellman_ford / find_negative_cycle compute in f32: `bf32`, `fnc32`)
+fn case_f32<Ty: EdgeType>(ctx: &mut Ctx, rng: &mut Rng, sec: &Sec, o: &Orders, negzero: bool) {
+    let ag = sec.ag;
+    let wcf = move |w: i64| if negzero && w == 0 { -0.0f32 } else { w as f32 };
+    let wc: WConv<f32> = &wcf;
+    let mut choices = vec![0, 2];
+    if ag.is_simple() {
+        choices.extend([3, 4, 5]);
+    }
+    match *rng.pick(&choices) {
+        0 => sec_graph::<Ty, u32, f32, LB>(ctx, rng, sec, o, wc, "u32-f32", false),
+        2 => sec_stable::<Ty, u32, f32, LB>(ctx, rng, sec, o, wc, "u32-f32", false),
+        3 => sec_matrix::<Ty, Rs, u16, f32, LB>(ctx, rng, sec, o, wc, "matrix-f32", false),
+        4 => sec_map::<Ty, Rs, f32, LB>(ctx, rng, sec, o, wc, "map-f32", false),
+        _ => sec_csr::<Ty, u32, f32, LB>(ctx, rng, sec, o, wc, "csr-f32", false),
+    }
+}
+
+/// the eleven other `BoundedMeasure` cost types, on a plain `Graph` of the same abstract graph (its own
+/// section): up to three types whose range admits the case (`spfa` from the first source, `fw`, `fwp`)
+fn extras_section<Ty: EdgeType>(ctx: &mut Ctx, sec: &Sec) {
+    let ag = sec.ag;
+    let mut g0 = Graph::<usize, f64, Ty, u32>::with_capacity(0, 0);
+    for a in 0..ag.n {
+        g0.add_node(a);
+    }
+    for &(a, b, w) in &ag.edges {
+        g0.add_edge(petgraph::graph::NodeIndex::new(a), petgraph::graph::NodeIndex::new(b), w as f64);
+    }
+    let g = &g0;
+    let d = dims_edges(sec, g);
+    let (ks, kf) = (pick_extras(sec, &d, true), if sec.big >= 1 { Vec::new() } else { pick_extras(sec, &d, false) });
+    if (ks.is_empty() || sec.sources.is_empty()) && kf.is_empty() {
+        return;
+    }
+    let abs = |x: petgraph::graph::NodeIndex<u32>| x.index();
+    let conc = |a: usize| petgraph::graph::NodeIndex::<u32>::new(a);
+    let line = view_line(ag, g, &abs, &|er, _| EdgeRef::id(&er).index());
+    ctx.line(&format!("{} what=extras-graph", line), "ok");
+    if let Some(&s) = sec.sources.first() {
+        for &t in &ks {
+            by_cost!(t, call_spfa, [&Graph<usize, f64, Ty, u32>, f64], (ctx, sec, g, &abs, &conc, s, true));
+        }
+    }
+    for &t in &kf {
+        by_cost!(t, call_fw, [&Graph<usize, f64, Ty, u32>, f64], (ctx, sec, g, &abs, &conc));
+    }
+}
+
+fn special_ty<Ty: EdgeType>(ctx: &mut Ctx, rng: &mut Rng, ag: &AG, s: usize) {
+    special_cost_laws::<Ty>(ctx, rng, ag, s)
+}
+
 pub fn run(ctx: &mut Ctx, case: u64) {
     let mut rng = Rng::for_case(ctx.seed, "C11", case);
-    let (ag, tags, hint) = gen_case(&mut rng, ctx.tier_thorough);
-    ctx.raw(&format!("case {} {} n={} m={}", case, tags, ag.n, ag.edges.len()));
+    let gc = gen_case(&mut rng, ctx.tier_thorough);
+    let ag = &gc.ag;
     let n = ag.n;
-    let mut sources = vec![rng.below(n)];
+    let negzero = rng.chance(5);
+    let f32w = gc.big == 0 && gc.force.is_none() && !gc.tags.contains("+scaled") && rng.chance(12);
+    let matdir = !f32w && gc.force.is_none() && gc.big == 0 && ag.directed && ag.is_simple() && rng.chance(8);
+    let mut tags = gc.tags.clone();
+    if negzero { tags.push_str("+negzero"); }
+    if f32w { tags.push_str("+f32"); }
+    ctx.raw(&format!("case {} {} n={} m={}", case, tags, n, ag.edges.len()));
+    let mut sources = Vec::new();
+    if n > 0 {
+        sources.push(rng.below(n));
+    }
     if n > 1 {
         let t = (sources[0] + 1 + rng.below(n - 1)) % n;
         sources.push(t);
     }
     // the convex DAG's interesting source is the first node of the hidden order
-    if let Some(ord) = &hint {
+    if let Some(ord) = &gc.hint {
         if rng.chance(70) { sources[0] = ord[0]; if sources.len() > 1 && sources[1] == ord[0] { sources[1] = ord[1]; } }
     }
-    with_ty!(ag.directed, case_ty, ctx, &mut rng, &ag, &sources, &hint);
+    if gc.big == 2 {
+        sources.truncate(1);
+    }
+    // extra cost types, narrow ones first in 60 % of the cases
+    let mut narrow: Vec<&'static str> = EXTRA_NARROW.to_vec();
+    let mut wide: Vec<&'static str> = EXTRA_WIDE.to_vec();
+    rng.shuffle(&mut narrow);
+    rng.shuffle(&mut wide);
+    let mut pool: Vec<&'static str> = narrow.into_iter().chain(wide).collect();
+    if !rng.chance(60) {
+        rng.shuffle(&mut pool);
+    }
+    let ids: Vec<usize> = (0..n).collect();
+    let sec = Sec { ag, ids: &ids, sources: &sources, pool: &pool, laws: true, big: gc.big };
+    let o = orders(&mut rng, ag, &gc.hint);
+    if f32w {
+        with_ty!(ag.directed, case_f32, ctx, &mut rng, &sec, &o, negzero);
+    } else if matdir {
+        case_matrix_directed(ctx, &mut rng, &sec, &o);
+    } else {
+        with_ty!(ag.directed, case_ty, ctx, &mut rng, &sec, &o, gc.force, negzero);
+    }
+    if gc.big < 2 {
+        with_ty!(ag.directed, extras_section, ctx, &sec);
+    }
+    // lines that do not depend on the graph: one cost type's BoundedMeasure / FloatMeasure surface
+    let t = *rng.pick(&["i8", "i16", "i32", "i64", "i128", "isize", "u8", "u16", "u32", "u64", "u128", "usize", "f32", "f64"]);
+    by_cost!(t, measure_lines, [], (ctx, &mut rng));
+    if n >= 1 && n <= 12 && rng.chance(10) {
+        with_ty!(ag.directed, special_ty, ctx, &mut rng, ag, sources[0]);
+    }
 }
